@@ -168,6 +168,35 @@ def run_channel(item):
                     bad({"class": "blocks_vs_read"}, "get_continuous_blocks(%d,%d)=%s read lengths %s" % (
                         s, e, dict(blocks), [(k, len(v)) for k, v in got]), query=[s, e])
                 part["outcomes"]["read blocks=%d" % len(got)] += 1
+        # --- the same ranges given as numpy integer scalars (indices usually come out of numpy arithmetic; the
+        #     format's own index type is uint64): same answer as with Python ints
+        ntyped = 0
+        for T_ in (np.uint64, np.int64):
+            for s in edges:
+                for e in edges[::2]:
+                    if e < s or (s, e) not in cache or ntyped > 1200:
+                        continue
+                    ntyped += 1
+                    try:
+                        got = rf.read_runs(reader, ch, T_(s), T_(e))
+                        blocks = reader.get_continuous_blocks(T_(s), T_(e), ch)
+                    except TypeError:
+                        part["outcomes"]["numpy_index_refused"] += 1
+                        continue
+                    part["evaluations"] += 2
+                    if [(k, rf.norm_rows(cfg, v)) for k, v in got] != cache[(s, e)]:
+                        bad({"class": "numpy_index_changes_answer", "call": "read", "type": T_.__name__},
+                            "read(%s(%d), %s(%d)) returns blocks %s; with Python ints %s" % (
+                                T_.__name__, s, T_.__name__, e, [(k, len(v)) for k, v in got], [(k, len(v)) for k, v in cache[(s, e)]]), query=[s, e])
+                        break
+                    if [(int(k), int(v)) for k, v in blocks.items()] != [(k, len(v)) for k, v in cache[(s, e)]]:
+                        bad({"class": "numpy_index_changes_answer", "call": "get_continuous_blocks", "type": T_.__name__},
+                            "get_continuous_blocks(%s(%d), %s(%d)) = %s; with Python ints %s" % (
+                                T_.__name__, s, T_.__name__, e, dict(blocks), [(k, len(v)) for k, v in cache[(s, e)]]), query=[s, e])
+                        break
+                else:
+                    continue
+                break
         # subchannel selection on a linear subset of ranges
         for c in range(cfg["nsub"]):
             for s in edges:
